@@ -61,6 +61,42 @@ class FailAt:
         self.exc = Injected(f"injected at {point} {stage} step {step}")
         raise self.exc
 
+    def inside_spsq(self, stage=None, step=None, n=None):
+        """Fault delivered INSIDE the arithmetic of solve_for_psi_squared (point 'spsq_inside'): returns the exception to raise."""
+        if self.fired or self.point != "spsq_inside" or stage != self.stage or step != self.step or n != self.nth:
+            return None
+        self.fired = True
+        if self.exc_kind == "kbd":
+            return KeyboardInterrupt()
+        self.exc = Injected(f"injected inside solve_for_psi_squared {stage} step {step}")
+        return self.exc
+
+
+class FailTwice:
+    """A cancellation (KeyboardInterrupt) at `first`, and a second one at `second` - e.g. while the frame that records the
+    cancelled state is being written. Looks like the first fault to the audit."""
+
+    def __init__(self, first, second):
+        self.first, self.second = first, second
+        self.point, self.stage, self.step, self.exc_kind, self.nth = "twice:" + first.point + "+" + second.point, first.stage, first.step, "kbd", first.nth
+
+    @property
+    def fired(self):
+        return self.first.fired
+
+    @property
+    def exc(self):
+        return getattr(self.first, "exc", None)
+
+    def maybe_fail(self, point, **info):
+        if not self.first.fired:
+            self.first.maybe_fail(point, **info)
+        else:
+            self.second.maybe_fail(point, **info)
+
+    def inside_spsq(self, **info):
+        return None
+
 
 def S_BC2(dev):
     """Bc2 of the device spec in mT (field_units of these cases)."""
@@ -535,6 +571,8 @@ def run_case(spec):
                     if combo["pause"] != "off" and exc_kind == "err":
                         continue
                     points = [("update_entry", 0), ("update_exit", 0), ("update_middle", 0)]
+                    if exc_kind == "kbd":
+                        points.append(("spsq_inside", 0))  # a cancellation that arrives in the middle of the psi update's arithmetic
                     if combo.get("scr"):
                         points += [("update_middle", 1), ("induced_exit", 0), ("induced_exit", 1)]
                     if stage == "Simulating":
@@ -544,6 +582,13 @@ def run_case(spec):
                         merge(*one_run(spec, dev, f))
                         if f.fired:
                             classes.add(f"{point}/{exc_kind}")
+                    if exc_kind == "kbd" and stage == "Simulating" and combo["pause"] == "off" and step % combo["k"] != 0:
+                        # Ctrl-C twice: the second one arrives while the frame that records the cancelled state is written
+                        for p2, n2 in (("save_entry", 0), ("save_middle", 2), ("save_exit", 0)):
+                            f2 = FailTwice(FailAt("update_entry", stage, step, "kbd", 0), FailAt(p2, stage, step, "kbd", n2))
+                            merge(*one_run(spec, dev, f2))
+                            if f2.second.fired:
+                                classes.add("double_interrupt/" + p2)
     else:
         # statements of the simulation loop, the frame writer and the stage driver (the property speaks of
         # stops "at any step": faults while the handler itself is being set up or torn down are out of scope)
